@@ -3,7 +3,20 @@ package main
 // Lemma obligations and counterexample replay against the real code.
 
 import (
+	"bytes"
+	"context"
+	"encoding/json"
 	"fmt"
+	"go/types"
+	"math/big"
+	"os"
+	"os/exec"
+	"path/filepath"
+	"regexp"
+	"strings"
+	"time"
+
+	"golang.org/x/tools/go/ssa"
 )
 
 func Raw(text string, s Sort) *Term { return P.mk("raw", text, s) }
@@ -28,10 +41,403 @@ func (eng *Engine) lemmaObligations(id string) *FuncResult {
 	return &FuncResult{name: "lemmas", fc: fc}
 }
 
-// tryReplay builds and runs a test against the real code from the solver's model when the
-// function's parameter shapes are supported; returns text appended to the replay file.
-func tryReplay(eng *Engine, dir, id string, o *Obligation) string {
-	return replayGeneric(eng, dir, id, o)
+// ---------------------------------------------------------------------------------------
+// Replay: run the real function on the solver's inputs and compare what it does with what the
+// solver's model predicts (results, or a panic for safe.* obligations).
+
+const replayElems = 48
+
+type replayPlan struct {
+	fn      *ssa.Function
+	inputs  []replayVal // per parameter
+	results []replayVal // per result (post obligations)
+	ok      bool
+	why     string
 }
 
-func replayGeneric(eng *Engine, dir, id string, o *Obligation) string { return "" }
+type replayVal struct {
+	name  string
+	typ   types.Type
+	terms []*Term // terms whose model values are needed
+	kind  string  // int bool bytes string big err skip
+}
+
+var replayCount = 0
+
+func shapeOf(t types.Type) string {
+	switch u := t.Underlying().(type) {
+	case *types.Basic:
+		if n, _ := intBits(u); n > 0 {
+			return "int"
+		}
+		switch u.Kind() {
+		case types.Bool:
+			return "bool"
+		case types.String:
+			return "string"
+		}
+	case *types.Slice:
+		if b, ok := u.Elem().Underlying().(*types.Basic); ok && b.Kind() == types.Uint8 {
+			return "bytes"
+		}
+	case *types.Pointer:
+		if isBigInt(u.Elem()) {
+			return "big"
+		}
+	case *types.Interface:
+		if isErrorType(t) {
+			return "err"
+		}
+	}
+	return ""
+}
+
+// planReplay attaches the terms needed for a replay to the obligation (before solving).
+func (eng *Engine) planReplay(fr *Frame, fc *FuncCtx, o *Obligation, results []*Term) {
+	f := fr.fn
+	if f.Signature.Recv() != nil || f.Parent() != nil {
+		return
+	}
+	plan := &replayPlan{fn: f, ok: true}
+	byteCls := elemClass(types.Typ[types.Byte])
+	h0 := fc.heapInit(byteCls, elemClassSort(types.Typ[types.Byte]))
+	big0 := fc.heapInit("big", bigSort)
+	for _, p := range f.Params {
+		v := replayVal{name: p.Name(), typ: p.Type(), kind: shapeOf(p.Type())}
+		t := fr.vals[p]
+		switch v.kind {
+		case "int", "bool":
+			v.terms = []*Term{t}
+		case "bytes":
+			v.terms = []*Term{SlLen(t), SlCap(t), SlArr(t)}
+			row := Select(h0, SlArr(t))
+			for k := 0; k < replayElems; k++ {
+				v.terms = append(v.terms, Select(row, bvBin("bvadd", SlOff(t), BVLit64(uint64(k), 64))))
+			}
+		case "string":
+			v.terms = []*Term{StrLen(t)}
+			for k := 0; k < replayElems; k++ {
+				v.terms = append(v.terms, Select(StrData(t), BVLit64(uint64(k), 64)))
+			}
+		case "big":
+			v.terms = []*Term{t, Select(big0, t)}
+		default:
+			plan.ok = false
+			plan.why = "parameter " + p.Name() + " of type " + typeName(p.Type()) + " has no input builder"
+		}
+		plan.inputs = append(plan.inputs, v)
+	}
+	if o.kind == "post" && results != nil {
+		rs := f.Signature.Results()
+		for i := 0; i < rs.Len() && i < len(results); i++ {
+			v := replayVal{name: fmt.Sprintf("r%d", i), typ: rs.At(i).Type(), kind: shapeOf(rs.At(i).Type())}
+			switch v.kind {
+			case "int", "bool":
+				v.terms = []*Term{results[i]}
+			case "err":
+				v.terms = []*Term{IfTag(results[i])}
+			case "bytes":
+				v.terms = []*Term{SlLen(results[i])}
+			default:
+				v.kind = "skip"
+			}
+			plan.results = append(plan.results, v)
+		}
+	}
+	o.plan = plan
+	if !plan.ok {
+		return
+	}
+	o.params = nil
+	o.pnames = nil
+	add := func(prefix string, vs []replayVal) {
+		for _, v := range vs {
+			for k, t := range v.terms {
+				o.params = append(o.params, t)
+				o.pnames = append(o.pnames, fmt.Sprintf("%s%s#%d", prefix, v.name, k))
+			}
+		}
+	}
+	add("in:", plan.inputs)
+	add("out:", plan.results)
+}
+
+func smtNum(s string) (*big.Int, bool) {
+	s = strings.TrimSpace(s)
+	switch {
+	case strings.HasPrefix(s, "#x"):
+		v, ok := new(big.Int).SetString(s[2:], 16)
+		return v, ok
+	case strings.HasPrefix(s, "#b"):
+		v, ok := new(big.Int).SetString(s[2:], 2)
+		return v, ok
+	case strings.HasPrefix(s, "(_ bv"):
+		f := strings.Fields(s[5:])
+		v, ok := new(big.Int).SetString(f[0], 10)
+		return v, ok
+	case strings.HasPrefix(s, "(-"):
+		v, ok := new(big.Int).SetString(strings.TrimSpace(strings.Trim(s[2:], "() ")), 10)
+		if ok {
+			v.Neg(v)
+		}
+		return v, ok
+	}
+	v, ok := new(big.Int).SetString(s, 10)
+	return v, ok
+}
+
+func tryReplay(eng *Engine, dir, id string, o *Obligation) string {
+	if o.status != "failed" || o.plan == nil {
+		return ""
+	}
+	plan := o.plan
+	if !plan.ok {
+		return "replay: not attempted: " + plan.why + "\n"
+	}
+	if replayCount >= 4 {
+		return "replay: not attempted (limit of 4 replays per run reached)\n"
+	}
+	if o.kind != "post" && o.kind != "safe" {
+		return "replay: not attempted for obligation kind " + o.kind + "\n"
+	}
+	get := func(name string, k int) (*big.Int, string, bool) {
+		s, ok := o.model[fmt.Sprintf("%s#%d", name, k)]
+		if !ok {
+			return nil, "", false
+		}
+		v, okn := smtNum(s)
+		return v, s, okn
+	}
+	f := plan.fn
+	pkg := f.Pkg.Pkg
+	qual := func(p *types.Package) string {
+		if p == pkg {
+			return ""
+		}
+		return p.Name()
+	}
+	var body strings.Builder
+	var callArgs []string
+	needBig := false
+	for i, in := range plan.inputs {
+		vn := fmt.Sprintf("a%d", i)
+		tn := types.TypeString(in.typ, qual)
+		if strings.Contains(tn, ".") && !strings.HasPrefix(tn, "big.") {
+			return "replay: not attempted: parameter type " + tn + " needs an import\n"
+		}
+		switch in.kind {
+		case "int":
+			v, _, ok := get("in:"+in.name, 0)
+			if !ok {
+				return "replay: model value missing for " + in.name + "\n"
+			}
+			if isSigned(in.typ) {
+				v = toSigned(v, SortOf(in.typ).Bits())
+			}
+			fmt.Fprintf(&body, "\tvar %s %s = %s\n", vn, tn, v.String())
+		case "bool":
+			_, s, _ := get("in:"+in.name, 0)
+			fmt.Fprintf(&body, "\tvar %s %s = %s\n", vn, tn, strings.TrimSpace(s))
+		case "bytes", "string":
+			ln, _, ok := get("in:"+in.name, 0)
+			if !ok {
+				return "replay: model value missing for " + in.name + "\n"
+			}
+			first := 3
+			if in.kind == "string" {
+				first = 1
+			}
+			n := int(toSigned(ln, 64).Int64())
+			if n < 0 || n > 1<<16 {
+				return fmt.Sprintf("replay: not attempted: model length %d of %s is out of replay range\n", n, in.name)
+			}
+			var bs []string
+			for k := 0; k < n; k++ {
+				b := big.NewInt(0)
+				if k < replayElems {
+					if v, _, ok := get("in:"+in.name, first+k); ok {
+						b = v
+					}
+				}
+				bs = append(bs, b.String())
+			}
+			isNil := false
+			if in.kind == "bytes" {
+				if arr, _, ok := get("in:"+in.name, 2); ok && arr.Sign() == 0 {
+					isNil = true
+				}
+			}
+			if in.kind == "string" {
+				fmt.Fprintf(&body, "\tvar %s %s = %s(string([]byte{%s}))\n", vn, tn, tn, strings.Join(bs, ","))
+			} else if isNil {
+				fmt.Fprintf(&body, "\tvar %s %s\n", vn, tn)
+			} else {
+				fmt.Fprintf(&body, "\tvar %s %s = %s{%s}\n", vn, tn, tn, strings.Join(bs, ","))
+			}
+		case "big":
+			ref, _, _ := get("in:"+in.name, 0)
+			v, _, ok := get("in:"+in.name, 1)
+			needBig = true
+			if ref != nil && ref.Sign() == 0 {
+				fmt.Fprintf(&body, "\tvar %s *big.Int\n", vn)
+			} else if ok {
+				fmt.Fprintf(&body, "\t%s, _ := new(big.Int).SetString(\"%s\", 10)\n", vn, v.String())
+			} else {
+				return "replay: model value missing for " + in.name + "\n"
+			}
+		}
+		callArgs = append(callArgs, vn)
+	}
+	if f.Signature.Variadic() {
+		callArgs[len(callArgs)-1] += "..."
+	}
+	var rnames []string
+	rs := f.Signature.Results()
+	var prints []string
+	for i := 0; i < rs.Len(); i++ {
+		rn := fmt.Sprintf("r%d", i)
+		rnames = append(rnames, rn)
+		tn := types.TypeString(rs.At(i).Type(), qual)
+		fmt.Fprintf(&body, "\tvar %s %s\n", rn, tn)
+		switch shapeOf(rs.At(i).Type()) {
+		case "int":
+			prints = append(prints, fmt.Sprintf("fmt.Sprintf(\"r%d=%%d\", %s)", i, rn))
+		case "bool":
+			prints = append(prints, fmt.Sprintf("fmt.Sprintf(\"r%d=%%t\", %s)", i, rn))
+		case "err":
+			prints = append(prints, fmt.Sprintf("fmt.Sprintf(\"r%d=nil:%%t\", %s == nil)", i, rn))
+		case "bytes":
+			prints = append(prints, fmt.Sprintf("fmt.Sprintf(\"r%d=len:%%d\", len(%s))", i, rn))
+		default:
+			prints = append(prints, fmt.Sprintf("\"r%d=?\"", i))
+		}
+		if strings.Contains(tn, ".") && !strings.HasPrefix(tn, "big.") {
+			return "replay: not attempted: result type " + tn + " needs an import\n"
+		}
+	}
+	call := fmt.Sprintf("%s(%s)", f.Name(), strings.Join(callArgs, ", "))
+	if len(rnames) > 0 {
+		call = strings.Join(rnames, ", ") + " = " + call
+	}
+	var src strings.Builder
+	fmt.Fprintf(&src, "package %s\n\nimport (\n\t\"fmt\"\n\t\"strings\"\n\t\"testing\"\n", pkg.Name())
+	if needBig {
+		src.WriteString("\t\"math/big\"\n")
+	}
+	src.WriteString(")\n\n")
+	fmt.Fprintf(&src, "// replay of obligation %s (property %s)\nfunc TestGovcReplay(t *testing.T) {\n", o.name, id)
+	src.WriteString(body.String())
+	src.WriteString("\tvar panicked interface{}\n\tfunc() {\n\t\tdefer func() { panicked = recover() }()\n\t\t" + call + "\n\t}()\n")
+	src.WriteString("\tparts := []string{fmt.Sprintf(\"panicked=%t\", panicked != nil)}\n")
+	for _, p := range prints {
+		src.WriteString("\tparts = append(parts, " + p + ")\n")
+	}
+	src.WriteString("\tfmt.Println(\"GOVC-REPLAY \" + strings.Join(parts, \" \"))\n\tif panicked != nil {\n\t\tfmt.Printf(\"GOVC-PANIC %v\\n\", panicked)\n\t}\n}\n")
+	for _, rn := range rnames {
+		_ = rn
+	}
+	testFile := filepath.Join(dir, sanitizeFile(o.name)+"_replay_test.go")
+	os.WriteFile(testFile, []byte(src.String()), 0o644)
+	rel := strings.TrimPrefix(strings.TrimPrefix(pkg.Path(), eng.modPath), "/")
+	target := filepath.Join(eng.repo, rel, "zz_govc_replay_test.go")
+	ov, _ := json.Marshal(map[string]map[string]string{"Replace": {target: testFile}})
+	ovFile := filepath.Join(dir, sanitizeFile(o.name)+".overlay.json")
+	os.WriteFile(ovFile, ov, 0o644)
+	replayCount++
+	ctx, cancel := context.WithTimeout(context.Background(), 180*time.Second)
+	defer cancel()
+	cmd := exec.CommandContext(ctx, "go", "test", "-mod=mod", "-overlay", ovFile, "-vet=off", "-v", "-count=1", "-timeout", "60s", "-run", "^TestGovcReplay$", "./"+rel+"/")
+	cmd.Dir = eng.repo
+	cmd.Env = append(os.Environ(), "GOFLAGS=-mod=mod", "GOPROXY=off")
+	var out bytes.Buffer
+	cmd.Stdout = &out
+	cmd.Stderr = &out
+	cmd.Run()
+	res := out.String()
+	var sb strings.Builder
+	fmt.Fprintf(&sb, "replay test: %s\nreplay command: (cd %s && go test -mod=mod -overlay %s -vet=off -v -count=1 -timeout 60s -run '^TestGovcReplay$' ./%s/)\n", testFile, eng.repo, ovFile, rel)
+	m := regexp.MustCompile(`GOVC-REPLAY (.*)`).FindStringSubmatch(res)
+	if m == nil {
+		fmt.Fprintf(&sb, "replay: the test did not produce a result:\n%s\n", firstLines(res, 20))
+		return sb.String()
+	}
+	fmt.Fprintf(&sb, "replay: real code returned: %s\n", m[1])
+	got := map[string]string{}
+	for _, kv := range strings.Fields(m[1]) {
+		if i := strings.Index(kv, "="); i > 0 {
+			got[kv[:i]] = kv[i+1:]
+		}
+	}
+	if o.kind == "safe" {
+		if got["panicked"] == "true" {
+			o.replayed = true
+			fmt.Fprintf(&sb, "replay: CONFIRMED: the real function panics on the solver's input (%s)\n", firstLines(res[strings.Index(res, "GOVC-PANIC"):], 1))
+		} else {
+			sb.WriteString("replay: the real function did not panic on this input (the model depends on abstracted values)\n")
+		}
+		return sb.String()
+	}
+	// post: the real results must coincide with the model's results (which violate the clause)
+	if got["panicked"] == "true" {
+		sb.WriteString("replay: the real function panicked instead of returning\n")
+		return sb.String()
+	}
+	match, compared := true, 0
+	for i, rv := range plan.results {
+		key := fmt.Sprintf("r%d", i)
+		switch rv.kind {
+		case "int":
+			v, _, ok := get("out:"+rv.name, 0)
+			if !ok {
+				continue
+			}
+			if isSigned(rv.typ) {
+				v = toSigned(v, SortOf(rv.typ).Bits())
+			}
+			compared++
+			if got[key] != v.String() {
+				match = false
+				fmt.Fprintf(&sb, "replay: result %d: model predicts %s, real code gives %s\n", i, v.String(), got[key])
+			}
+		case "bool":
+			_, s, ok := get("out:"+rv.name, 0)
+			if !ok {
+				continue
+			}
+			compared++
+			if got[key] != strings.TrimSpace(s) {
+				match = false
+				fmt.Fprintf(&sb, "replay: result %d: model predicts %s, real code gives %s\n", i, s, got[key])
+			}
+		case "err":
+			v, _, ok := get("out:"+rv.name, 0)
+			if !ok {
+				continue
+			}
+			compared++
+			want := fmt.Sprintf("nil:%t", v.Sign() == 0)
+			if got[key] != want {
+				match = false
+				fmt.Fprintf(&sb, "replay: result %d: model predicts %s, real code gives %s\n", i, want, got[key])
+			}
+		case "bytes":
+			v, _, ok := get("out:"+rv.name, 0)
+			if !ok {
+				continue
+			}
+			compared++
+			want := "len:" + toSigned(v, 64).String()
+			if got[key] != want {
+				match = false
+				fmt.Fprintf(&sb, "replay: result %d: model predicts %s, real code gives %s\n", i, want, got[key])
+			}
+		}
+	}
+	if match && compared > 0 {
+		o.replayed = true
+		sb.WriteString("replay: CONFIRMED: the real function returns exactly the results of the solver's counterexample, which violate the clause\n")
+	} else if compared == 0 {
+		sb.WriteString("replay: no comparable result values\n")
+	}
+	return sb.String()
+}
